@@ -166,20 +166,47 @@ func checkAssembleGetInfoFirst(e *Env, p *load.Program, rule string) {
 		return
 	}
 	gi := callsTo(fn, load.PkgArch, "GetInfo")
+	var via *ssa.Call // the call in Policy.Assemble to the helper that looks the architecture up
+	if len(gi) == 0 {
+		// in a helper of the package that Policy.Assemble calls (`ensureArch`)
+		for _, c := range flow.Calls(fn) {
+			call, ok := c.(*ssa.Call)
+			if !ok {
+				continue
+			}
+			cal := flow.Callee(call)
+			if cal == nil || cal.Pkg == nil || cal.Pkg.Pkg.Path() != load.PkgRoot || len(cal.Blocks) == 0 {
+				continue
+			}
+			if hs := callsTo(cal, load.PkgArch, "GetInfo"); len(hs) == 1 {
+				gi, via = hs, call
+			}
+		}
+	}
 	if len(gi) != 1 {
 		r.Unknown(rule, "Policy.Assemble/GetInfo", p.Pos(fn.Pos()), fmt.Sprintf("expected exactly one call to arch.GetInfo, found %d", len(gi)))
 		return
 	}
-	failEdgeReturnsError(e, p, rule, "Policy.Assemble/GetInfo-error", gi[0], true)
+	if via != nil {
+		// the helper returns the lookup's error, and Policy.Assemble returns the helper's
+		failEdgeReturnsError(e, p, rule, "Policy.Assemble/GetInfo-error", gi[0], false)
+		failEdgeReturnsError(e, p, rule, "Policy.Assemble/GetInfo-error/propagated", via, true)
+	} else {
+		failEdgeReturnsError(e, p, rule, "Policy.Assemble/GetInfo-error", gi[0], true)
+	}
 	// GetInfo("") : the argument is the empty string constant (=> GOARCH)
 	if s, ok := flow.ConstString(gi[0].Call.Args[0]); !ok || s != "" {
 		r.Bad(rule, "Policy.Assemble/GetInfo-arg", p.Pos(gi[0].Pos()), "GetInfo is not called with the empty name (runtime.GOARCH)")
 	} else {
 		r.OK(rule, "Policy.Assemble/GetInfo-arg", p.Pos(gi[0].Pos()), `GetInfo("") selects runtime.GOARCH`)
 	}
+	anchor := gi[0]
+	if via != nil {
+		anchor = via
+	}
 	for _, c := range callsTo(fn, load.PkgRoot, "SyscallGroup.Assemble") {
 		reach := flow.Reachable(c.Block(), nil)
-		before := reach[gi[0].Block()] && !(c.Block() == gi[0].Block() && flow.InstrIndex(gi[0]) < flow.InstrIndex(c))
+		before := reach[anchor.Block()] && !(c.Block() == anchor.Block() && flow.InstrIndex(anchor) < flow.InstrIndex(c))
 		r.Check(!before, rule, "Policy.Assemble/group-after-GetInfo", p.Pos(c.Pos()), "no group is compiled before the architecture lookup",
 			"a group is compiled on a path that reaches the architecture lookup afterwards")
 	}
